@@ -1,0 +1,62 @@
+//go:build verif
+
+// schemes/enc/v1/verif_hooks.go
+// Add-only test seam for the verification harness (never compiled into normal builds): exposes
+// the unexported pure helpers of the scheme so that they can be compared with their
+// specification on argument values no document of practical size reaches.
+
+package v1
+
+import "bytes"
+
+// VerifNonceForSegment is fileKey.nonceForSegment for the given nonce prefix.
+func VerifNonceForSegment(noncePrefix []byte, num uint32, last bool) []byte {
+	return fileKey{noncePrefix: noncePrefix}.nonceForSegment(num, last)
+}
+
+// VerifDeriveKeys returns the header (MAC) key and the payload key derived from a file key.
+func VerifDeriveKeys(fileKeyBytes, noncePrefix []byte) (headerKey, payloadKey []byte, err error) {
+	fk, err := importFileKey(fileKeyBytes, noncePrefix, CipherAESGCM)
+	if err != nil {
+		return nil, nil, err
+	}
+	return fk.headerKey, fk.payloadKey, nil
+}
+
+// VerifSignHeader returns the signed header for a manifest line.
+func VerifSignHeader(fileKeyBytes, noncePrefix []byte, manifest []byte) ([]byte, error) {
+	fk, err := importFileKey(fileKeyBytes, noncePrefix, CipherAESGCM)
+	if err != nil {
+		return nil, err
+	}
+	return fk.SignHeader(manifest)
+}
+
+// VerifEncryptSegment seals one segment at an arbitrary position.
+func VerifEncryptSegment(fileKeyBytes, noncePrefix []byte, cipher Cipher, data []byte, num uint32, last bool) ([]byte, error) {
+	fk, err := importFileKey(fileKeyBytes, noncePrefix, cipher)
+	if err != nil {
+		return nil, err
+	}
+	buf := make([]byte, len(data), len(data)+SegmentOverhead)
+	copy(buf, data)
+	var out bytes.Buffer
+	if err = fk.EncryptSegment(&out, buf, num, last); err != nil {
+		return nil, err
+	}
+	return out.Bytes(), nil
+}
+
+// VerifDecryptSegment opens one segment at an arbitrary position.
+func VerifDecryptSegment(fileKeyBytes, noncePrefix []byte, cipher Cipher, data []byte, num uint32, last bool) ([]byte, error) {
+	fk, err := importFileKey(fileKeyBytes, noncePrefix, cipher)
+	if err != nil {
+		return nil, err
+	}
+	buf := append([]byte(nil), data...)
+	var out bytes.Buffer
+	if err = fk.DecryptSegment(&out, buf, num, last); err != nil {
+		return nil, err
+	}
+	return out.Bytes(), nil
+}
